@@ -125,6 +125,25 @@ def strategy(tier):
     return _case()
 
 
+def enumerate_cases(tier):
+    """Circuits that differ only in their measurement's wire partition / wire order (hash confusion between measurements, not gates):
+    the copy with the other measurement is executed in the same batch and against the shared cache."""
+    base = [{"op": "Hadamard", "p": [], "w": [0]}, {"op": "RY", "p": [0.7], "w": [1]}, {"op": "CNOT", "p": [], "w": [0, 1]}, {"op": "CRX", "p": [1.1], "w": [1, 2]},
+            {"op": "RX", "p": [0.4], "w": [2]}]
+    pairs = [({"mp": "mutual_info", "w0": [0], "w1": [1, 2]}, {"mp": "mutual_info", "w0": [0, 1], "w1": [2]}),
+             ({"mp": "mutual_info", "w0": [0], "w1": [1]}, {"mp": "mutual_info", "w0": [0], "w1": [2]}),
+             ({"mp": "probs", "w": [0, 1]}, {"mp": "probs", "w": [1, 0]}),
+             ({"mp": "density_matrix", "w": [0, 2]}, {"mp": "density_matrix", "w": [2, 0]}),
+             ({"mp": "vn_entropy", "w": [0]}, {"mp": "vn_entropy", "w": [0, 1]}),
+             ({"mp": "purity", "w": [1]}, {"mp": "purity", "w": [1, 2]}),
+             ({"mp": "expval", "obs": {"op": "prod", "operands": [{"op": "PauliX", "w": [0]}, {"op": "PauliZ", "w": [1]}]}},
+              {"mp": "expval", "obs": {"op": "prod", "operands": [{"op": "PauliZ", "w": [0]}, {"op": "PauliX", "w": [1]}]}})]
+    for m1, m2 in pairs:
+        for prehash in (True, False):
+            yield {"wires": [0, 1, 2], "base": base, "variants": [], "meas": [m1], "plan": [[0]],
+                   "derived": [{"copy_of": 0, "kind": "meas", "prehash": prehash, "meas": [m2]}]}
+
+
 def _flat(r):
     out = []
     def rec(x):
@@ -197,7 +216,7 @@ def check(spec):
                         ref = sim.run_tape(t, order)
                         side = "uncached agrees with reference" if all(close(u, v, 1e-7) for u, v in zip(a, _flat(ref))) else "uncached DISAGREES with reference"
                         ops_k = circuits[[i for i in idxs if i < len(tapes)][k]]
-                        leaf = _first_param_leaf(ops_k)
+                        leaf = _first_param_leaf(ops_k) if isinstance(ops_k, list) else None  # noqa: F841
                         raise Viol("cached-result-differs",
                                    f"{label} step={step} pos={k} diff={maxdiff(y, x)} ({side}); circuit={ops_k} meas={spec['meas']}",
                                    sig=label, features={"mode": label})
